@@ -21,6 +21,22 @@ theorem mapM_append' {α β} (f : α → PyM β) (l1 l2 : List α) :
     (l1 ++ l2).mapM f = l1.mapM f >>= fun a => l2.mapM f >>= fun b => pure (a ++ b) := by
   simp [List.mapM_append]
 
+theorem mapM_ok_length {α β} (f : α → PyM β) (l : List α) (r : List β) (h : l.mapM f = .ok r) : r.length = l.length := by
+  induction l generalizing r with
+  | nil => rw [mapM_nil'] at h; injection h with h; subst h; rfl
+  | cons a l ih =>
+    rw [mapM_cons'] at h
+    cases hf : f a with
+    | error e => rw [hf] at h; cases h
+    | ok b =>
+      rw [hf, bind_ok] at h
+      cases hl : l.mapM f with
+      | error e => rw [hl] at h; cases h
+      | ok bs =>
+        rw [hl, bind_ok, pure_ok] at h
+        injection h with h; subst h
+        simp [ih bs hl]
+
 /-- element-wise bridge lifts through `mapM` -/
 theorem mapM_bridge {α β} (xs : List α) (g : α → β) (f : β → PyM Int) (f' : α → PyM Nat)
     (h : ∀ x ∈ xs, f (g x) = (f' x).map Int.ofNat) :
